@@ -220,10 +220,14 @@ func (h CarHeader) Matches(other CarHeader) bool {
 		return h.Roots[0].Equals(other.Roots[0])
 	}
 
-	// Check other contains all roots.
-	// TODO: should this be optimised for cases where the number of roots are large since it has O(N^2) complexity?
+	// Check other contains all roots, with the same multiplicities.
+	counts := make(map[cid.Cid]int, thisLen)
 	for _, r := range h.Roots {
-		if !other.containsRoot(r) {
+		counts[r]++
+	}
+	for _, r := range other.Roots {
+		counts[r]--
+		if counts[r] < 0 {
 			return false
 		}
 	}
